@@ -258,7 +258,32 @@ example :
     (@handleSrtPacket Int fixScalar exSys exPkt 4000).1.lastSelected = some 1 ∧
     ((@handleSrtPacket Int fixScalar exSys exPkt 4000).1.links.map (·.queue.length)) = [0, 4, 0] ∧
     ((@handleSrtPacket Int fixScalar exSys exPkt 4000).1.links.map (·.stallGated)) = [false, false, false] ∧
-    (@handleSrtPacket Int fixScalar exSys exPkt 4000).2.wire = [] := by
+    (@handleSrtPacket Int fixScalar exSys exPkt 4000).2.wire = [] ∧
+    -- `C10_windows_client`: the client event moved no window
+    ((@handleSrtPacket Int fixScalar exSys exPkt 4000).1.links.map (·.core.window)) = [20000, 40000, 60000] := by
+  decide +kernel
+
+/-- Non-interference, concretely: `exSys'` differs from `exSys` in every field a classic decision must
+not read (gates, CC target, quality cache, stall history, per-link stale timeout, previous selection,
+critical deadline, connection ids, queue CONTENTS) and gets a different datagram (a 1-byte control
+packet): same keys, same configured timeout, same choice. -/
+def exSys' : Sys Int :=
+  { links := [ exLink 21 20000 9 3900 [],
+               { exLink 22 40000 12 3900 [([9], some 1, 1), ([9], some 2, 2), ([9], some 3, 3)] with
+                   weak := true, lossDegraded := true, qualMult := 1, silencePulled := true, latchedSince := 7,
+                   gateEvents := 3, connTimeoutMs := 1, ccTarget := 1 },
+               { exLink 23 60000 0 0 [] with qualMult := 5000 } ],
+    reg := { id := [], probeId := [], hasConnected := true },
+    lastSelected := some 2, critDeadline := 0,
+    cfg := { classic := true, stallDeselect := false, connTimeoutMs := 3000, quality := false, stallMinInFlight := 1 } }
+
+example :
+    exSys.links.map (@keyOf Int) = exSys'.links.map (@keyOf Int) ∧
+    exSys.cfg.connTimeoutMs = exSys'.cfg.connTimeoutMs ∧
+    exSys'.cfg.classic = true ∧ exSys'.cfg.stallDeselect = false ∧ exSys'.reg.hasConnected = true ∧
+    (∀ l ∈ exSys'.links, 0 ≤ l.core.inFlight ∧ l.core.inFlight + l.queue.length + 1 ≤ 2147483647) ∧
+    (@handleSrtPacket Int fixScalar exSys exPkt 4000).1.lastSelected = some 1 ∧
+    (@handleSrtPacket Int fixScalar exSys' [0x80] 4000).1.lastSelected = some 1 := by
   decide +kernel
 
 /-! ## 2. Windows -/
@@ -493,6 +518,28 @@ example :
       = [20002, 1000] ∧
     (refNakEvent (refSackEvent (refSackEvent [(20000, true), (1000, true)] (some (1, 2))) none) 1)
       = [(20002, true), (1000, true)] := by
+  decide +kernel
+
+/-- Whole uplink arm on two links (windows 20000 and 1000; link 1 holds 6, 7, 8): an SRTLA ACK
+datagram `[7, 99]` arriving on link 0 gives `[20002, 1031]` (link 1 earns `+29` once, both live links
+get `+1` twice); a REG_ERR on link 1 tears it down to 20000, disconnected.  The periodic flush of
+`exSys` puts link 1's three queued datagrams on the wire and moves no window. -/
+example :
+    let mk (id : Nat) (w : Int) (log : List (Int × Nat)) : FLink Int :=
+      { core := { connId := id, connected := true, window := w, inFlight := log.length, log := log,
+                  lastReceived := some 5, phase := .live },
+        rtt := @Rtt.RttTracker.new Int fixScalar, bitrate := @Rtt.Bitrate.new Int fixScalar 0, qualMult := 1000 }
+    let s : Sys Int :=
+      { links := [mk 1 20000 [], mk 2 1000 [(6, 0), (7, 0), (8, 0)]],
+        reg := { id := [], probeId := [], hasConnected := true }, cfg := { classic := true } }
+    s.cfg.classic = true ∧ (∀ l ∈ s.links, l.core.window ≤ 60000) ∧
+    ((@handleUplinkPacket Int fixScalar s 1 [0x91, 0x00, 0, 0, 0, 0, 0, 7, 0, 0, 0, 99] 100).1.links.map
+      (·.core.window)) = [20002, 1031] ∧
+    ((@handleUplinkPacket Int fixScalar s 2 [0x92, 0x10] 100).1.links.map (·.core.window)) = [20000, 20000] ∧
+    ((@handleUplinkPacket Int fixScalar s 2 [0x92, 0x10] 100).1.links.map (·.core.connected)) = [true, false] ∧
+    ((flushAllBatches exSys 4000).1.links.map (·.core.window)) = [20000, 40000, 60000] ∧
+    ((flushAllBatches exSys 4000).1.links.map (·.queue.length)) = [0, 0, 0] ∧
+    (flushAllBatches exSys 4000).2.wire = [(12, [1]), (12, [2]), (12, [3])] := by
   decide +kernel
 
 /-! ## 3. No time-based recovery -/
